@@ -306,14 +306,19 @@ class MinimizerIMinuit(MinimizerBase):
             raise ValueError("Unknown keyword arguments for contour(): {}".format(minimizer_contour_kwargs.keys()))
         _ = self.parameter_values, self.parameter_errors  # initialize so that they are part of the saved state
         self._save_state()
-        if _IMINUIT_1:
-            _x_errs, _y_errs, _contour_line = self._get_iminuit().mncontour(parameter_name_1, parameter_name_2, numpoints=_numpoints, sigma=sigma)
-        else:
-            # The following conversion is derived by integrating the two-dimensional standard
-            # normal distribution over a circle of radius sigma centered on (0, 0).
-            _cl = 1.0 - np.exp(-0.5 * sigma**2)
-            _contour_line = self._get_iminuit().mncontour(parameter_name_1, parameter_name_2, size=_numpoints, cl=_cl)
-        self.minimize()  # return to minimum
+        try:
+            if _IMINUIT_1:
+                _x_errs, _y_errs, _contour_line = self._get_iminuit().mncontour(parameter_name_1, parameter_name_2, numpoints=_numpoints, sigma=sigma)
+            else:
+                # The following conversion is derived by integrating the two-dimensional standard
+                # normal distribution over a circle of radius sigma centered on (0, 0).
+                _cl = 1.0 - np.exp(-0.5 * sigma**2)
+                _contour_line = self._get_iminuit().mncontour(parameter_name_1, parameter_name_2, size=_numpoints, cl=_cl)
+            self.minimize()  # return to minimum
+        except BaseException:
+            # do not leave the fit at an excursion point if the contour search fails
+            self._load_state()
+            raise
         self._load_state()  # report the same values and uncertainties as before the excursion
         if len(_contour_line) == 0:
             return None  # failed to find any point on contour
